@@ -143,6 +143,10 @@ func ParseLine(s string) *Line {
 		}
 	}
 
+	if s == "" {
+		return nil
+	}
+
 	if s[0] == ':' {
 		// remove a source and parse it
 		if idx := strings.Index(s, " "); idx != -1 {
@@ -168,6 +172,9 @@ func ParseLine(s string) *Line {
 		args = append(strings.Fields(args[0]), args[1])
 	} else {
 		args = strings.Fields(args[0])
+	}
+	if len(args) == 0 {
+		return nil
 	}
 	line.Cmd = strings.ToUpper(args[0])
 	if len(args) > 1 {
